@@ -643,6 +643,17 @@ def run(ctx):
     for pert in FOOTER_PERTS:
         specs.append({'gen': 'vmdk', 'params': {'footer': True, 'footer_pert': pert}})
         specs.append({'gen': 'vmdk', 'params': {'footer': True, 'footer_pert': pert, 'ctype': 'streamOptimized', 'desc_num': 2}})
+    # footer fields that contradict the header without an 0x5a flip: other sector counts / locations, small and large
+    # (large ones need a real 1 MiB descriptor area)
+    for hd, fd in ((20, 21), (20, 2048), (2, 3), (2048, 4096), (2048, 2049), (3000, 2999), (2048, 1 << 32), (4096, 2048)):
+        for ctype in ('monolithicSparse', 'streamOptimized'):
+            specs.append({'gen': 'vmdk', 'params': {'desc_num': hd, 'footer': True, 'footer_over': {'desc_num': fd},
+                                                    'ctype': ctype, 'min_total': 0}})
+    for fs in (0, 2, 1 << 40):
+        specs.append({'gen': 'vmdk', 'params': {'footer': True, 'footer_over': {'desc_sec': fs}, 'min_total': 0}})
+    for fv in (2, 3, 0):
+        specs.append({'gen': 'vmdk', 'params': {'footer': True, 'footer_over': {'ver': fv}, 'min_total': 0}})
+    specs.append({'gen': 'vmdk', 'params': {'desc_num': 2048, 'footer': True, 'min_total': 0}})      # clean, large descriptor
     specs += other_specs(rng, ctx.pick(2000, 150000))
     specs += text_specs(rng, ctx.pick(150, 10000))
     cli_budget = ctx.pick(32, 800)
